@@ -32,8 +32,8 @@ def sortKeyBytes (k : Bytes) : Bytes := encode (.bytes k)
 
 def keyLe (a b : Bytes) : Bool := lenLexLe (sortKeyBytes a) (sortKeyBytes b)
 
-/-- `dict(sorted(self.data.items(), key=...))` for byte-string keys (Python's sort is stable; so is `mergeSort`) -/
-def canonSort {ν : Type} (m : List (Bytes × ν)) : List (Bytes × ν) := m.mergeSort (fun a b => keyLe a.1 b.1)
+/-- `dict(sorted(self.data.items(), key=...))` for byte-string keys (Python's sort is stable; so is `isort`) -/
+def canonSort {ν : Type} (m : List (Bytes × ν)) : List (Bytes × ν) := isort (fun a b => keyLe a.1 b.1) m
 
 /-- `Asset.to_primitive` -/
 def primAsset (a : Asset) : List (Bytes × Int) := canonSort (Asset.normalize a)
@@ -66,12 +66,12 @@ def itemBytesMap (m : List (Bytes × Item)) : Item := .map ((canonSort m).map (f
 /-- sort key of an integer key (`dumps(key)`; metadata labels, redeemer tags) -/
 def sortKeyInt (i : Int) : Bytes := encode (ofInt i)
 def canonSortInt {ν : Type} (m : List (Int × ν)) : List (Int × ν) :=
-  m.mergeSort (fun a b => lenLexLe (sortKeyInt a.1) (sortKeyInt b.1))
+  isort (fun a b => lenLexLe (sortKeyInt a.1) (sortKeyInt b.1)) m
 def itemIntMap (m : List (Int × Item)) : Item := .map ((canonSortInt m).map (fun p => (ofInt p.1, p.2)))
 
 /-- any `DictCBORSerializable`, keys and values given by their CBOR bytes: sort by `(len(cbor(k)), cbor(k))`,
 emit a definite-length map in that order -/
-def canonSortRaw (m : List (Bytes × Bytes)) : List (Bytes × Bytes) := m.mergeSort (fun a b => lenLexLe a.1 b.1)
+def canonSortRaw (m : List (Bytes × Bytes)) : List (Bytes × Bytes) := isort (fun a b => lenLexLe a.1 b.1) m
 def encRawMap (m : List (Bytes × Bytes)) : Bytes :=
   head 5 m.length ++ (canonSortRaw m).flatMap (fun p => p.1 ++ p.2)
 
